@@ -410,14 +410,17 @@ PROPERTIES["C08"] = {
 
 PROPERTIES["C17"] = {
     "level": "model_checking",
-    "level_text": "ARITHMETIC / EXACTLY-ONCE CLAUSES ONLY. SBV unit: the real ENQUEUE path of both map() templates (packaged tasks, futures, queue, completion barrier) is executed symbolically on a pool that reports K workers but starts no OS thread; the completion barrier is replaced by one that drains the queue on the calling thread with an ARBITRARY (symbolic) worker id per task: for all symbolic (elements, chunksize) within the bounds the operator runs exactly once per chunk / index, chunks tile [0,elements), worker ids are below the pool size and every enqueued task has run when map() returns - tasks run one after the other, so interleavings, lost wake-ups, races and shutdown are NOT covered. LIFT-C unit: bounded model checking of the lifted pool_t::map templates specialised to their inline path (size()==1): for all (elements <= 2^40, chunksize) with <= 8 chunks the operator is invoked exactly once per chunk / index, chunks tile [0,elements) without gap or overlap, worker id 0, no signed overflow. Every schedule clause (interleavings, lost wake-ups, completion barrier, exception re-throw across threads, shutdown) is NOT covered: the synchronisation lives in libstdc++/pthread primitives that no engine in this image can execute symbolically",
-    "level_note": LIFT_NOTE + "; pool object fabricated without threads; __builtin_unreachable() hint specialises map() to the inline path; " + SBV_NOTE,
-    "technique": LIFT_TECH + "; enqueue path by " + SBV_TECH,
-    "explanation": "C17 (tiling clause): both pool_t::map templates lifted from include/nano/core/parallel.h; dispatch arithmetic decided by CBMC for symbolic element counts and chunk sizes.",
-    "assumptions": ["pool size 1 (inline path)", "<= 8 chunks / <= 8 elements (unwind 10)", "elements, chunksize <= 2^40"],
-    "bounds": {"chunks": "<= 8", "elements": "<= 2^40 (chunked map), <= 8 (per-index map)"},
-    "outside": ["ALL schedule clauses of C17: any interleaving of workers and callers, several submitting threads, worker-id exclusivity, returns-after-all-tasks barrier, exception re-throw, destruction while idle/busy/queued - not applicable to solver-based checking of this C++ code (std::thread, std::condition_variable, std::packaged_task are opaque library calls)",
-                "exception re-throw through futures (the interpreter's exceptions are not visible to the native std::current_exception used by std::packaged_task)"],
+    "level_text": "bounded: (1) unit C17_threads - the REAL pool (constructor starting std::threads, worker loops, enqueue / notify, both map() barriers over futures, exception transport, destructor) runs under the SBV interpreter's cooperative thread model: every std::thread is an interpreter context, context switches happen at the visible operations (thread start / exit / join, mutex lock, condition wait / notify, future wait, a yield inside every task) and the choice of the next thread is a symbolic variable concretised by forking, so within the preemption bound every schedule of K <= 3 workers, <= 2 submitters and <= 3 tasks is explored: exactly-once, worker-id validity and exclusivity, returns-after-all-tasks, exception re-throw, no deadlock in map() and in the destructor of an idle / busy / queued pool. (2) unit C17_enqueue - symbolic (elements, chunksize) on the real enqueue path with a sequentialised barrier and arbitrary worker ids. (3) LIFT-C unit - the inline path's tiling arithmetic for elements <= 2^40 by CBMC",
+    "level_note": LIFT_NOTE + "; pool object fabricated without threads; __builtin_unreachable() hint specialises map() to the inline path; " + SBV_NOTE + "; thread model: engine/sbv/sbv_threads.inc",
+    "technique": LIFT_TECH + "; enqueue path and interleavings by " + SBV_TECH,
+    "explanation": "C17: pool_t / queue_t / worker_t / section_t from include/nano/core/parallel.h and src/core/parallel.cpp. Interleavings: SBV thread model (schedules are symbolic choices, replayed by the interpreter from the violation file); element / chunk arithmetic: SBV with symbolic sizes and CBMC on the lifted inline path.",
+    "assumptions": ["LIFT-C: pool size 1 (inline path), <= 8 chunks / <= 8 elements (unwind 10), elements, chunksize <= 2^40",
+                    "thread model: code between two visible operations runs atomically (data races are not detected); no spurious wake-ups of condition variables; libstdc++'s mutex / condition_variable / futex wait / thread start / join are modelled by the interpreter (their semantics, not their implementation); std::call_once runs its callable inline",
+                    "pool_t::max_size() replaced by a constant K (independent of the machine)"],
+    "bounds": {"chunks": "<= 8 (LIFT-C)", "elements": "<= 2^40 (chunked map, LIFT-C), symbolic up to 10^6 with <= 70 tasks (C17_enqueue)",
+               "thread model": "K <= 3 workers, <= 3 tasks, <= 2 submitting threads, preemption bound 2 (switches at blocking operations are free); configurations with K = 2 are exhaustive within the preemption bound, larger ones are cut by the path / time budget (counts in the evidence)"},
+    "outside": ["data races (the model is sequentially consistent at the granularity of visible operations; ThreadSanitizer territory)", "schedules beyond the preemption bound, pools with more than 3 workers / 3 tasks, more than 2 submitters",
+                "spurious wake-ups", "behaviour of the real libstdc++ / pthread primitives themselves"],
     "units": [
         {"engine": "lift", "name": "C17_map", "shim": "C17_shim.cpp", "driver": "C17_drv.c", "roots": ["k_map_chunks", "k_map_each"], "link_real_lib": True,
          "quick": [{"func": "h_map_chunks", "unwind": 10, "desc": "map(elements, chunksize, op): exactly-once tiling for all elements<=2^40 and chunk sizes with <=8 chunks"},
@@ -431,6 +434,15 @@ PROPERTIES["C17"] = {
          "budget": {"quick": {"deadline_s": 120, "max_paths": 5000, "query_s": 30}, "thorough": {"deadline_s": 900, "max_paths": 50000, "query_s": 60}},
          "encoded": ["nano::parallel::pool_t::map(elements, chunksize, op, raise) [enqueue path: queue_t::enqueue_no_lock, std::packaged_task, std::future, section_t]", "nano::parallel::pool_t::map(elements, op, raise) [enqueue path]",
                      "std::deque<task_t> / std::scoped_lock / condition_variable::notify_all (native on the real objects, single thread)", "section_t::block replaced by the sequentialised barrier (drains the queue with arbitrary worker ids, then the original future loop)"]},
+        {"engine": "sbv", "harness": "C17_threads", "sources": ["C17_threads.cpp"], "replay_with": "interpreter",
+         "quick": ["mode=each;K=2;n=2;symn=1", "mode=chunks;K=2;n=3;chunk=2;symn=1", "mode=throw;K=2;n=2;symn=1", "mode=queued;K=2;n=2", "mode=two;K=2;n=2", "mode=each;K=3;n=3"],
+         "thorough": ["mode=each;K=2;n=2;symn=1", "mode=each;K=2;n=3;symn=1", "mode=chunks;K=2;n=3;chunk=2;symn=1", "mode=chunks;K=2;n=4;chunk=2;symn=1", "mode=chunks;K=3;n=5;chunk=2", "mode=throw;K=2;n=2;symn=1", "mode=throw;K=3;n=3",
+                      "mode=queued;K=2;n=2", "mode=queued;K=2;n=3", "mode=queued;K=3;n=2", "mode=two;K=2;n=2", "mode=each;K=3;n=3", "mode=each;K=3;n=2"],
+         "env_tier": {"thorough": {"SBV_PREEMPT": "3"}},
+         "budget": {"quick": {"deadline_s": 45, "max_paths": 400000, "query_s": 10}, "thorough": {"deadline_s": 900, "max_paths": 5000000, "query_s": 30}},
+         "encoded": ["nano::parallel::pool_t::{pool_t(size_t), ~pool_t, map(elements, op, raise), map(elements, chunksize, op, raise), enqueue, size}", "nano::parallel::worker_t::operator()", "nano::parallel::queue_t::{enqueue, enqueue_no_lock}",
+                     "nano::parallel::section_t::{block, ~section_t}", "std::packaged_task / std::shared_future / std::__future_base (interpreted from the harness' and the library's bitcode)",
+                     "modelled by the interpreter: std::thread start / join, pthread_mutex_lock / unlock, std::condition_variable::{wait, notify_one, notify_all}, __atomic_futex_unsigned_base::_M_futex_wait_until, std::current_exception / rethrow_exception for interpreted exceptions"]},
     ],
 }
 
